@@ -237,10 +237,33 @@ def conservation_case(r, s, rng, i):
     want_body = WORD.findall(body_part)
     want = want_body
     fwant = set(FWORD.findall(text))
-    for fname in FORMATS:
+    runs = [(fname, None) for fname in FORMATS]
+    if i % 12 == 1:
+        # one parsed tree exported several times through the public token-tree export: every export carries the whole text again
+        runs += [('html', 1), ('latex', 2), ('html', 3), ('latex', 4)]
+    hist = []
+    for fname, nth in runs:
         fmt = D.FMT[fname]
-        rq = D.req_to_json('asan', 'CONVERT', fmt, EXT, 0, 1 | (1 << 4), [src])
-        rep = s.call('asan', 'CONVERT', fmt, EXT, 0, 1 | (1 << 4), [src], crash_is_violation=False)
+        if nth is None:
+            rq = D.req_to_json('asan', 'CONVERT', fmt, EXT, 0, 1 | (1 << 4), [src])
+            rep = s.call('asan', 'CONVERT', fmt, EXT, 0, 1 | (1 << 4), [src], crash_is_violation=False)
+        else:
+            if nth == 1:
+                for sub, args in ((0, [src]), (12, [b''])):
+                    hist.append(D.req_to_json('asan', 'ENGINE', 0, EXT, 0, 0 | (sub << 4), args))
+                    if s.call('asan', *D.req_from_json(hist[-1]), history=hist[:-1], crash_is_violation=False) is None:
+                        hist = None
+                        break
+            if hist is None:
+                break
+            rq = D.req_to_json('asan', 'ENGINE', fmt, EXT, 0, 0 | (14 << 4), [b''])
+            hist.append(rq)
+            # (a plain conversion of this document has just succeeded in this format: a crash here is about the repeated export)
+            rep = s.call('asan', *D.req_from_json(rq), history=hist[:-1], crash_is_violation=True, key_suffix=':export-%d-of-one-tree' % nth, what='[export %d of one parsed tree, %s]' % (nth, fname))
+            if rep is None:
+                hist = None
+                break
+            r.stats['exports_of_one_tree_checked'] += 1
         r.evaluations += 1
         if rep is None or rep.status:
             continue
@@ -251,7 +274,8 @@ def conservation_case(r, s, rng, i):
         else:
             out_b = out
         got = WORD.findall(out_b)
-        case = dict(requests=[rq])
+        case = dict(requests=[rq] if nth is None else list(hist))
+        tagx = '' if nth is None else ':export-%d-of-one-tree' % nth
         want = want_body if fname != 'opml' else WORD.findall(text)        # OPML stores the whole source, reference definitions included
         r.stats['documents_x_formats_compared'] += 1
         r.stats['body_words_tracked'] += len(want)
@@ -265,17 +289,19 @@ def conservation_case(r, s, rng, i):
             # name the construct that holds the first offending word
             wbad = (missing or dup or [want[k] if k < len(want) else got[k]])[0]
             ctx = construct_of(text, wbad)
-            r.violate('conservation:%s:%s:%s' % (fname, cls, ctx), '%s output: body word %s %s (first divergence at word %d)' % (fname, wbad, cls, k), case,
+            r.violate('conservation:%s:%s:%s%s' % (fname, cls, ctx, tagx), '%s output: body word %s %s (first divergence at word %d)' % (fname, wbad, cls, k), case,
                       'expected …%s\ngot      …%s\nsource: %s' % (' '.join(want[max(0, k - 3):k + 5]), ' '.join(got[max(0, k - 3):k + 5]), core.show(src, 600)))
         for fw in fwant:
             n = len(re.findall(r'(?<![A-Za-z0-9])%s(?![A-Za-z0-9])' % fw, out_b))
             if n == 0:
-                r.violate('conservation:%s:note-lost' % fname, '%s output: footnote word %s is missing' % (fname, fw), case, core.show(src, 600))
+                r.violate('conservation:%s:note-lost%s' % (fname, tagx), '%s output: footnote word %s is missing' % (fname, fw), case, core.show(src, 600))
                 break
         err = check_nesting(fname, out)
         r.stats['nesting_checked'] += 1
         if err:
             r.violate('nesting:%s' % fname, '%s markup is not properly nested: %s' % (fname, err), case, core.show(src, 600))
+    if hist:
+        s.call('asan', 'ENGINE', 0, 0, 0, 0 | (9 << 4), [b''], crash_is_violation=False)
     if len(want) >= 5:
         r.distinct.add(core.h64(src))
     if i % 997 == 1:
@@ -385,13 +411,44 @@ def address_case(r, s, rng, i):
     r.sets['slot_kinds'].add('autolink-address')
 
 
+FIG_ALTS = ['Q', 'Z', '7', 'QZ', 'Q7Z', 'Q Z', 'é', '中', '%', '&', '#', '_', 'Q%', '&Z', 'ZQZQ']
+
+
+def figure_case(r, s, rng, i):
+    """a figure (an image alone in its paragraph) with a very short alternative text: the text is the caption in every format"""
+    alt = rng.choice(FIG_ALTS)
+    title = rng.choice(['', '', ' "T7"'])
+    form = rng.choice(['![%s](img.png%s)', '![%s][f1]\n\n[f1]: img.png%s'])
+    text = 'qa0q\n\n' + form % (alt, title) + '\n\nqb0q\n'
+    src = text.encode('utf-8')
+    esc = {'html': {'&': '&amp;'}, 'fodt': {'&': '&amp;'}, 'latex': {'%': '\\%', '&': '\\&', '#': '\\#', '_': '\\_'}}
+    esc['beamer'] = esc['memoir'] = esc['latex']
+    for fname in ('html', 'latex', 'beamer', 'memoir', 'fodt'):
+        fmt = D.FMT[fname]
+        rq = D.req_to_json('asan', 'CONVERT', fmt, EXT, 0, 1 | (1 << 4), [src])
+        rep = s.call('asan', 'CONVERT', fmt, EXT, 0, 1 | (1 << 4), [src], crash_is_violation=False)
+        r.evaluations += 1
+        if rep is None or rep.status:
+            continue
+        out = rep.out.decode('utf-8', 'replace')
+        seg = between(out, 'qa0q', 'qb0q')
+        r.stats['figure_captions_checked'] += 1
+        want = ''.join(esc[fname].get(ch, ch) for ch in alt)
+        if seg is None or want not in seg.replace('img.png', ''):
+            r.violate('lost:%s:figure-caption' % fname, 'the alternative text %r of a figure is missing from the %s output' % (alt, fname), dict(requests=[rq]), (seg or '')[:400] + '\nsource: ' + core.show(src, 200))
+    r.distinct.add(core.h64(src))
+    r.sets['slot_kinds'].add('figure-short-alt')
+
+
 def work(job):
     seed, lo, hi = job
     r = core.JobResult()
     with core.Session(r) as s:
         for i in range(lo, hi):
             rng = core.job_rng(seed, ID, i)
-            if i % 7 == 3:
+            if i % 29 == 5:
+                figure_case(r, s, rng, i)
+            elif i % 7 == 3:
                 address_case(r, s, rng, i)
             elif i % 2 == 0:
                 escaping_case(r, s, rng, i)
